@@ -142,10 +142,16 @@ def make_function(spec: dict, fnid: str, env: Env, *, is_async: bool) -> Any:
     params = [p[0] for p in spec.get("params", [])]
     sig_parts = []
     defaults: dict[str, Any] = {}
+    seen_default = False
+    star = False
     for name, d in spec.get("params", []):
         if d is None:
+            if seen_default and not star:
+                sig_parts.append("*")  # a required parameter after a defaulted one must be keyword-only
+                star = True
             sig_parts.append(name)
         else:
+            seen_default = True
             defaults[name] = py_val(d["d"])
             sig_parts.append(f"{name}=_DEF[{name!r}]")
     kw = "{" + ", ".join(f"{p!r}: {p}" for p in params) + "}"
